@@ -97,3 +97,137 @@ def c06_1(run):
                 run.prove(f'{which}_checked_add Err => does not fit, state unchanged [{i}]', p.pc + [inv],
                           z3.And(z3.Not(fits), vals[f'current_size_{which}'] == cur, frame), replay=rp)
     run.require_reached(*run.cur.reach)
+
+
+# ----------------------------------------------------------------------------------------------------------------- C06-2
+import re
+from vlib import actions as A
+from mirsym import models as M
+from mirsym.engine import ok, err, some, none
+
+GROUP = 'astria_core::protocol::transaction::v1::Group'
+
+
+def c06_hooks():
+    def h_len(ctx):
+        return [(None, z3.BitVec('tx_len', 64))]
+
+    def h_rollup_bytes(ctx):
+        it = Obj('Iter', kind='iter'); b = Obj('bytes::Bytes'); b.attrs['symlen'] = z3.BitVec('tx_sequence_data_len', 64)
+        it.attrs['src'] = M.new_vec('Vec', [(Ref(('field', Obj('h', kind='cell'), ('*', 0, 'RollupId'))), Ref(('field', _cell_with(b), ('*', 0, 'Bytes'))))]); it.attrs['pos'] = 0; it.attrs['mode'] = 'val'
+        return [(None, it)]
+
+    def h_bytes_len(ctx):
+        v = ctx.ex.deref_val(ctx.st, ctx.args[0])
+        if isinstance(v, Obj) and 'symlen' in v.attrs:
+            return [(None, v.attrs['symlen'])]
+        return [(None, z3.BitVec('tx_len', 64))]
+
+    def h_group(ctx):
+        g = Obj(GROUP); g.discr = z3.BitVec('tx_group', 64)
+        ctx.st.pc.append(z3.Or(*[g.discr == z3.BitVecVal(v, 64) for v in (1, 2, 3, 4)]))
+        return [(None, g)]
+
+    def h_exec(ctx):
+        st = ctx.st
+        kind = z3.BitVec('exec_outcome', 8)       # 0 ok, 1 non-fatal action failure, 2 invalid nonce, 3 other (fatal)
+        st.pc.append(z3.ULE(kind, 3))
+        st.log.append(('execute_transaction',))
+
+        def alts(ex, s2, fut):
+            def mk(variant):
+                def f(s3):
+                    e = Obj('checked_transaction::error::CheckedTransactionExecutionError'); e.discr = variant
+                    if variant == 'CheckedAction':
+                        inner = Obj('checked_actions::error::CheckedActionExecutionError'); inner.discr = 'NonFatalExecution'
+                        e.fields[('CheckedAction', 0)] = inner
+                    return err(e)
+                return f
+            return [(kind == 0, (lambda s3: ok(M.new_vec('Vec<Event>', [])))), (kind == 1, mk('CheckedAction')), (kind == 2, mk('InvalidNonce')), (kind == 3, mk('NonceOverflowed'))]
+        return [(None, M.thunk_future(alts))]
+
+    def h_remove(ctx):
+        ctx.st.log.append(('mempool_remove',))
+        return [(None, M.thunk_future(lambda ex, s2, fut: [(None, ())]))]
+    return [(re.compile(r'^bytes::Bytes::len$|^Bytes::len$'), h_bytes_len), (re.compile(r'CheckedTransaction::rollup_data_bytes$'), h_rollup_bytes),
+            (re.compile(r'CheckedTransaction::group$'), h_group), (re.compile(r'(^|::)App::execute_transaction$'), h_exec),
+            (re.compile(r'Mempool::remove_tx_invalid$'), h_remove), (re.compile(r'CheckedTransaction::(encoded_bytes|id)$'), lambda ctx: [(None, Ref(('field', _cell_with(Obj(ctx.ret_ty)), ('*', 0, '?'))))]),
+            (re.compile(r'^(telemetry::display::)?json'), lambda ctx: [(None, Obj('json'))]), (re.compile(r'Report::new|::to_string$'), lambda ctx: [(None, Obj(ctx.ret_ty, kind='error' if 'Report' in ctx.ret_ty else None))])]
+
+
+def _cell_with(v):
+    h = Obj('cell', kind='cell'); h.fields[('*', 0)] = v
+    return h
+
+
+def mk_proposal(ex, which):
+    f = {k: z3.BitVec(k if 'sequencer' in k or which == 'Prepare' else 'process_' + k, 64) for k in ('max_size_sequencer', 'max_size_cometbft', 'current_size_sequencer', 'current_size_cometbft')}
+    bsc = B.struct(ex, 'BlockSizeConstraints', **f)
+    cur = Obj(GROUP); cur.discr = z3.BitVec('current_group', 64)
+    fields = dict(block_size_constraints=bsc, executed_txs=M.new_vec('Vec<ExecutedTransaction>', []), current_tx_group=cur, mempool=Obj('Mempool'))
+    if which == 'Prepare':
+        fields.update(failed_tx_count=z3.BitVec('failed_tx_count', 64), excluded_tx_count=z3.BitVec('excluded_tx_count', 64), metrics=B.cell(Obj('Metrics')))
+    return B.variant(ex, 'app::Proposal', which, **fields), f, cur
+
+
+@obligation('C06', 'C06-2 proposal_checks_and_tx_execution: what PrepareProposal includes, ProcessProposal accepts; limits, group order and fatal errors are enforced')
+def c06_2(run):
+    ex, W = A.engine(extra_hooks=c06_hooks())
+    f = ex.find(r'^app::<impl at [^>]*>::proposal_checks_and_tx_execution$')
+    run.bound(step='one transaction against an arbitrary proposal state (sizes, limits, current group all symbolic; executed list empty)',
+              execution='execute_transaction is an oracle with 4 outcomes: ok / non-fatal action failure / invalid nonce / other (fatal)')
+    run.bound(sizes='all byte counts < 2^62; in Process mode the CometBFT limit is usize::MAX (new_unlimited_cometbft)')
+    run.assume('tx.encoded_bytes().len(), the sequenced-data length and tx.group() are arbitrary values fixed per transaction; invariant current <= max for both counters')
+    results = {}
+    for which in ('Prepare', 'Process'):
+        prop, fv, cur = mk_proposal(ex, which)
+        app = Obj('App'); tx = Obj('Arc<CheckedTransaction>', kind='arc'); tx.fields[('in', 0)] = Obj('CheckedTransaction')
+        st = ex.start(f, [B.cell(app), tx, B.cell(prop)])
+        st.pc += [z3.ULE(fv['current_size_sequencer'], fv['max_size_sequencer']), z3.ULE(fv['current_size_cometbft'], fv['max_size_cometbft']),
+                  z3.Or(*[cur.discr == z3.BitVecVal(v, 64) for v in (1, 2, 3, 4)])]
+        lim = z3.BitVecVal(1 << 62, 64)
+        st.pc += [z3.ULT(fv['current_size_cometbft'], lim), z3.ULT(fv['current_size_sequencer'], lim), z3.ULT(z3.BitVec('tx_len', 64), lim), z3.ULT(z3.BitVec('tx_sequence_data_len', 64), lim)]
+        if which == 'Process':
+            st.pc.append(fv['max_size_cometbft'] == z3.BitVecVal(2**64 - 1, 64))      # process_proposal uses BlockSizeConstraints::new_unlimited_cometbft()
+        results[which] = []
+        tl, sl, tg, oc = z3.BitVec('tx_len', 64), z3.BitVec('tx_sequence_data_len', 64), z3.BitVec('tx_group', 64), z3.BitVec('exec_outcome', 8)
+        w = lambda x: z3.ZeroExt(2, x)
+        fits_seq = z3.ULE(w(fv['current_size_sequencer']) + w(sl), w(fv['max_size_sequencer']))
+        fits_comet = z3.ULE(w(fv['current_size_cometbft']) + w(tl), w(fv['max_size_cometbft']))
+        group_ok = tg <= cur.discr
+        for i, p in enumerate(run.explore(ex, st, poll=True, allow_havoc=(r'^Arguments::|fmt::', r'ExecTxResult', r'Default>::default', r'AbciErrorCode', r'Code::'))):
+            lab = f'[{which}, path {i}]'
+            if p.kind != 'return':
+                run.prove(f'no panic {lab}', p.pc, z3.BoolVal(False), detail=p.info); continue
+            r = p.result.fields[('Ready', 0)]
+            pr = ex.read(p, p.roots['args'][2].loc)
+            included = len(B.vfld(ex, p, pr, which, 'executed_txs').attrs['items']) == 1
+            executed = any(e[0] == 'execute_transaction' for e in p.log)
+            bsc1 = B.vfld(ex, p, pr, which, 'block_size_constraints')
+            seq1, com1 = B.fld(ex, p, bsc1, 'current_size_sequencer', 'usize'), B.fld(ex, p, bsc1, 'current_size_cometbft', 'usize')
+            results[which].append((p, r.discr, included))
+            run.sample({'mode': which, 'path': i, 'result': r.discr, 'included': included, 'executed': executed})
+            if included:
+                run.prove(f'included => fits the sequenced-data limit, group not above the current one, execution not fatal; counters grow by exactly the tx sizes {lab}', p.pc,
+                          z3.And(fits_seq, group_ok, z3.ULE(oc, 1), seq1 == fv['current_size_sequencer'] + sl, com1 == fv['current_size_cometbft'] + tl,
+                                 z3.BoolVal(r.discr == 'Ok'), fits_comet if which == 'Prepare' else z3.BoolVal(True),
+                                 ex.discr_value(p, B.vfld(ex, p, pr, which, 'current_tx_group')) == tg))
+            else:
+                run.prove(f'not included => counters and current group unchanged {lab}', p.pc,
+                          z3.And(seq1 == fv['current_size_sequencer'], com1 == fv['current_size_cometbft'], ex.discr_value(p, B.vfld(ex, p, pr, which, 'current_tx_group')) == cur.discr))
+            if which == 'Process':
+                run.prove(f'ProcessProposal rejects over-limit sequenced data, a group increase, and fatally failing transactions {lab}', p.pc,
+                          z3.Implies(z3.Or(z3.Not(fits_seq), z3.Not(group_ok), z3.UGE(oc, 2)), z3.BoolVal(r.discr == 'Err')))
+            if executed:
+                run.prove(f'a transaction is executed only after the size and group checks passed {lab}', p.pc, z3.And(fits_seq, group_ok, fits_comet if which == 'Prepare' else z3.BoolVal(True)))
+    # agreement: every input on which Prepare includes the tx is accepted (Ok, included) by Process
+    acc = z3.Or(*[z3.And(*p.pc) for p, d, inc in results['Process'] if d == 'Ok' and inc]) if any(d == 'Ok' and inc for _, d, inc in results['Process']) else z3.BoolVal(False)
+    n = 0
+    for p, d, inc in results['Prepare']:
+        if inc:
+            n += 1
+            pre_process = [z3.BitVec('process_max_size_cometbft', 64) == z3.BitVecVal(2**64 - 1, 64), z3.ULT(z3.BitVec('process_current_size_cometbft', 64), z3.BitVecVal(1 << 62, 64))]
+            run.prove(f'agreement: whatever PrepareProposal includes, ProcessProposal accepts on the same inputs [prepare path {n}]', p.pc + pre_process, acc)
+    if not n:
+        raise Inconclusive('vacuity: Prepare never includes')
+    run.require_reached(*run.cur.reach)
